@@ -288,9 +288,9 @@ func (db *DB) loadIndexFromHintFile() (uint32, error) {
 		return 0, err
 	}
 
-	// 实际读取到的最大数据文件 id
+	// hint 文件实际覆盖的数据文件 id 上界(不含), 未读取到任何记录时为 0
 	// 避免 hint 文件被删除导致无法加载的情况
-	var maxFileId datafile.FileID
+	var hintedFileId datafile.FileID
 	reader := hintFile.NewReader()
 	for {
 		key, pos, err := reader.NextHintRecord()
@@ -303,8 +303,8 @@ func (db *DB) loadIndexFromHintFile() (uint32, error) {
 		db.index.Put(key, pos)
 		db.totalSize += int64(pos.Size)
 
-		maxFileId = max(maxFileId, pos.Fid)
+		hintedFileId = max(hintedFileId, pos.Fid+1)
 	}
 
-	return maxFileId, nil
+	return hintedFileId, nil
 }
